@@ -275,3 +275,48 @@ class TransformedDraw(Contract):
         a, b = m.draw_sample(50), m.draw_sample(50)
         same = np.array_equal(a, b)
         return {"confirmed": not same, "detail": f"two draws with model.random_state=42 equal: {same}"}
+
+
+@contract(TM + ".__init__", ["C16"], [dict(rs=r) for r in ("none", "seed")], name="transformed.init")
+class TransformedInit(Contract):
+    """the constructor stores the base model, the three callables, precision_factor and random_state AS GIVEN (a seed
+    stays a seed: every later draw re-seeds with it, which is what makes repeated results identical), takes n_dim from
+    the base model and starts without a cached sample"""
+
+    def case_label(self, case):
+        return f"random_state={case['rs']}"
+
+    def inputs(self, itp, case):
+        cx = itp.cx
+
+        class Base(Opaque):
+            type_name = "GlobalHierarchicalModel"
+
+            def getattr_(s, itp_, name):
+                if name == "n_dim":
+                    return 2
+                raise PyRaise("AttributeError", name)
+        self.base = Base()
+        self.tr, self.inv, self.jac = CallRec("transform", lambda *a: None), CallRec("inverse", lambda *a: None), CallRec("jacobian", lambda *a: None)
+        self.pf = real(cx, "precision_factor")
+        self.seed = integer(cx, "seed") if case["rs"] == "seed" else None
+        self.obj = SObj(TM, {}, owner="call")
+        self.obj.handbuilt = False
+        kw = {"precision_factor": self.pf}
+        if self.seed is not None:
+            kw["random_state"] = self.seed
+        return [self.obj, self.base, self.tr, self.inv, self.jac], kw
+
+    def post(self, itp, case, inp, out):
+        cx = itp.cx
+        if out.outcome != "return":
+            cx.oblige("post.returns", False, "post", f"raised {out.exc}: {out.msg}")
+            return
+        f = self.obj.fields
+        cx.oblige("post.init.model", f.get("model") is self.base, "post")
+        cx.oblige("post.init.callables", f.get("transform") is self.tr and f.get("inverse") is self.inv and f.get("jacobian") is self.jac, "post", "transform / inverse / jacobian each in its own slot")
+        cx.oblige("post.init.precision_factor", f.get("precision_factor") is self.pf, "post")
+        cx.oblige("post.init.random_state_as_given", f.get("random_state", "ABSENT") is self.seed, "post",
+                  "random_state is stored as given (a seed is not turned into a live generator whose state would advance between calls)")
+        cx.oblige("post.init.n_dim", f.get("n_dim") == 2, "post")
+        cx.oblige("post.init.no_cached_sample", f.get("_sample", "ABSENT") is None, "post")
